@@ -599,8 +599,8 @@ mod verif_harness {
     }
 
     // @tier quick
-    // @obligation unsupported targets end in ErrorKind::UnsupportedType, never in a value: a bare scalar, a tuple, a sequence at the top level; a tuple, a sequence or a nested struct as a field
-    // @bounds 1 parameter with a symbolic 2-digit value; target shape chosen symbolically among 6
+    // @obligation unsupported targets end in ErrorKind::UnsupportedType, never in a value: a bare scalar, a tuple, a sequence, a newtype struct, a tuple struct, a unit struct, an enum or () at the top level; a tuple, a sequence or a nested struct as a field
+    // @bounds 1 parameter with a symbolic 2-digit value; target shape chosen symbolically among 11
     // @functions PathDeserializer::{deserialize_u8,deserialize_tuple,deserialize_seq}, ValueDeserializer::{deserialize_tuple,deserialize_seq,deserialize_struct}
     #[kani::proof]
     #[kani::unwind(4)]
@@ -629,8 +629,19 @@ mod verif_harness {
         let mut b1 = [0u8; 2];
         let (s1, _) = two_digits(&mut b1);
         let params: [(&str, Cow<'_, str>); 1] = [("a", Cow::Borrowed(s1))];
+        #[derive(Deserialize)]
+        struct TopNewtype(#[allow(dead_code)] u8);
+        #[derive(Deserialize)]
+        struct TopTupleStruct(#[allow(dead_code)] u8, #[allow(dead_code)] u8);
+        #[derive(Deserialize)]
+        struct TopUnitStruct;
+        #[derive(Deserialize)]
+        enum TopEnum {
+            #[allow(dead_code)]
+            A,
+        }
         let shape: u8 = kani::any();
-        kani::assume(shape < 6);
+        kani::assume(shape < 11);
         let d = PathDeserializer::new(&params);
         let kind_ok = |e: &PathDeserializationError| matches!(e.kind(), ErrorKind::UnsupportedType { .. });
         let ok = match shape {
@@ -639,11 +650,18 @@ mod verif_harness {
             2 => match <[u8; 1]>::deserialize(d) { Err(e) => { let k = kind_ok(&e); std::mem::forget(e); k } Ok(_) => false },
             3 => match FTuple::deserialize(d) { Err(e) => { let k = kind_ok(&e); std::mem::forget(e); k } Ok(_) => false },
             4 => match FSeq::deserialize(d) { Err(e) => { let k = kind_ok(&e); std::mem::forget(e); k } Ok(_) => false },
-            _ => match FNested::deserialize(d) { Err(e) => { let k = kind_ok(&e); std::mem::forget(e); k } Ok(_) => false },
+            5 => match FNested::deserialize(d) { Err(e) => { let k = kind_ok(&e); std::mem::forget(e); k } Ok(_) => false },
+            // the guide lists these top-level targets as unsupported too
+            6 => match TopNewtype::deserialize(d) { Err(e) => { let k = kind_ok(&e); std::mem::forget(e); k } Ok(_) => false },
+            7 => match TopTupleStruct::deserialize(d) { Err(e) => { let k = kind_ok(&e); std::mem::forget(e); k } Ok(_) => false },
+            8 => match TopUnitStruct::deserialize(d) { Err(e) => { let k = kind_ok(&e); std::mem::forget(e); k } Ok(_) => false },
+            9 => match TopEnum::deserialize(d) { Err(e) => { let k = kind_ok(&e); std::mem::forget(e); k } Ok(_) => false },
+            _ => match <()>::deserialize(d) { Err(e) => { let k = kind_ok(&e); std::mem::forget(e); k } Ok(_) => false },
         };
         assert!(ok, "an unsupported target produced a value or the wrong error kind");
         kani::cover!(shape == 5, "nested struct");
         kani::cover!(shape == 0, "bare scalar");
+        kani::cover!(shape == 6, "top-level newtype");
     }
 
     // @tier quick
@@ -774,6 +792,67 @@ mod verif_harness {
         kani::cover!(r.is_err() && !bad_is_a && swapped, "second field malformed, reversed order");
         kani::cover!(r.is_ok(), "both fine");
         std::mem::forget(r);
+    }
+
+    // @tier quick
+    // @obligation a long malformed value that contains a multi-byte character at ANY offset (0..=44 of 48 bytes, so also straddling every byte position around 40) ends in the documented ParseErrorAtKey for its key and type - never in a panic (Kani's panic checks are on) and never in a value - for u8, i32, bool and char fields
+    // @bounds 1 parameter of 48 bytes: k ASCII bytes, one 3-byte character, ASCII padding; k symbolic in 0..=44; 4 target types
+    // @functions ValueDeserializer::{deserialize_u8,deserialize_i32,deserialize_bool,deserialize_char} error path of parse_value!
+    // @timeout 1500
+    #[kani::proof]
+    #[kani::unwind(50)]
+    #[kani::stub(std::fmt::format, fmt_stub)]
+    fn c15_long_multibyte_value_is_a_clean_error() {
+        #[derive(Deserialize)]
+        struct A8 {
+            #[allow(dead_code)]
+            a: u8,
+        }
+        #[derive(Deserialize)]
+        struct A32 {
+            #[allow(dead_code)]
+            a: i32,
+        }
+        #[derive(Deserialize)]
+        struct AB {
+            #[allow(dead_code)]
+            a: bool,
+        }
+        #[derive(Deserialize)]
+        struct AC {
+            #[allow(dead_code)]
+            a: char,
+        }
+        let k: usize = kani::any();
+        kani::assume(k <= 44);
+        let mut buf = [b'y'; 48];
+        let mut i = 0;
+        while i < 48 {
+            if i < k {
+                buf[i] = b'x';
+            } else if i == k {
+                buf[i] = 0xE8;
+            } else if i == k + 1 {
+                buf[i] = 0xAA;
+            } else if i == k + 2 {
+                buf[i] = 0x9E;
+            }
+            i += 1;
+        }
+        // k ASCII bytes + U+8A9E + ASCII bytes: valid UTF-8 by construction
+        let s = unsafe { std::str::from_utf8_unchecked(&buf) };
+        let params: [(&str, Cow<'_, str>); 1] = [("a", Cow::Borrowed(s))];
+        let d = PathDeserializer::new(&params);
+        let t: u8 = kani::any();
+        kani::assume(t < 4);
+        let ok = match t {
+            0 => match A8::deserialize(d) { Err(e) => { let k = is_parse_error_for(&e, "a", "u8"); std::mem::forget(e); k } Ok(_) => false },
+            1 => match A32::deserialize(d) { Err(e) => { let k = is_parse_error_for(&e, "a", "i32"); std::mem::forget(e); k } Ok(_) => false },
+            2 => match AB::deserialize(d) { Err(e) => { let k = is_parse_error_for(&e, "a", "bool"); std::mem::forget(e); k } Ok(_) => false },
+            _ => match AC::deserialize(d) { Err(e) => { let k = is_parse_error_for(&e, "a", "char"); std::mem::forget(e); k } Ok(_) => false },
+        };
+        assert!(ok, "a long malformed value with a multi-byte character did not end in the documented parse error");
+        kani::cover!(k == 39 && t == 0, "the multi-byte character straddles byte 40");
     }
 
     // @tier quick
